@@ -46,9 +46,7 @@ VARIANTS = [
                 resolved = True
 """, "")),
     B("C17 revert F53: base parsers not resolved for a subclass", "C17", "R17i",
-      (CLS, """            if isinstance(parser, ClassParser):
-                parser.resolve_forward_refs(ignore_errors=ignore_errors)""", """            if isinstance(parser, ClassParser) and parser.forward_refs:
-                parser.resolve_forward_refs(ignore_errors=ignore_errors)""")),
+      (CLS, """        for base in self.obj.__mro__[1:]:""", """        for base in self.obj.__bases__:""")),
     G("benign C17: resolved flag accumulated with or",
       (RULE, """            if arg_resolved:
                 arg = cls._parse_arg(arg)
